@@ -988,7 +988,13 @@ func (c *bctx) outScript(o OutSpec) []byte {
 			return b.P2TR(mod(o.N, 6))
 		}
 	}
-	switch mod(o.Fam, 9) {
+	switch mod(o.Fam, 12) {
+	case 9:
+		return b.WrapP2SH(b.WrapP2WSH(b.True()))
+	case 10:
+		return b.WrapP2SH(b.WrapP2WSH(b.Puzzle(n)))
+	case 11:
+		return b.WrapP2SH(b.WrapP2WSH(b.SigOps(mod(o.N, 15))))
 	case 0:
 		return b.True()
 	case 1:
